@@ -167,6 +167,7 @@ theorem alloc_spec (s : St) : (l : Lit) → (nx : Nat) →
      | none => Spec.Val.litTree (abs s) l = none)
   | .int n, nx => by simp [Lit.alloc, Spec.Val.litTree, eraseVal]
   | .null, nx => by simp [Lit.alloc, Spec.Val.litTree, eraseVal]
+  | .str cs, nx => by simp [Lit.alloc, Spec.Val.litTree, eraseVal]
   | .rd p, nx => by
       simp only [Lit.alloc, Spec.Val.litTree, abs_read]
       cases h : readPlace s p with
@@ -220,6 +221,21 @@ theorem evalRV_cases (s : St) (r : RV) :
   cases r with
   | int n => exact Or.inr ⟨_, s.next, rfl, rfl, Nat.le_refl _⟩
   | null => exact Or.inr ⟨_, s.next, rfl, rfl, Nat.le_refl _⟩
+  | str cs => exact Or.inr ⟨_, s.next, rfl, rfl, Nat.le_refl _⟩
+  | upd p u =>
+    -- the scalar at `p` is read (same scalar on both sides: `eraseVal` keeps scalars), the new
+    -- scalar is computed by the same pure function; the state is untouched
+    cases h : readPlace s p with
+    | none => exact Or.inl ⟨by simp [evalRV, h], by simp [Spec.Val.evalRV, abs_read, h]⟩
+    | some v =>
+      cases v with
+      | arr a kids => exact Or.inl ⟨by simp [evalRV, h], by simp [Spec.Val.evalRV, abs_read, h, eraseVal]⟩
+      | sc sv =>
+        cases hu : u.apply sv with
+        | none => exact Or.inl ⟨by simp [evalRV, h, hu], by simp [Spec.Val.evalRV, abs_read, h, eraseVal, hu]⟩
+        | some r =>
+          exact Or.inr ⟨.sc r, s.next, by simp [evalRV, h, hu],
+            by simp [Spec.Val.evalRV, abs_read, h, eraseVal, hu], Nat.le_refl _⟩
   | rd p =>
     cases h : readPlace s p with
     | none => exact Or.inl ⟨by simp [evalRV, h], by simp [Spec.Val.evalRV, abs_read, h]⟩
